@@ -301,6 +301,40 @@ pub fn run(ctx: &Ctx, _args: &Args) -> i32 {
                 }
             }
         }
+        // (1b) no filter can be built (HTML filter on a non-HTML content type, unknown action, empty element path)
+        // and the response is declared compressed: the body — really compressed, truncated, or not compressed at
+        // all — passes through byte for byte, it is not decoded and re-encoded
+        {
+            let rejected: Vec<(Vec<Value>, &str)> = vec![
+                (vec![html_filter("append_child", &["html", "body"], None, &sentinel(1, true))], "application/json"),
+                (vec![html_filter("frobnicate", &["html", "body"], None, &sentinel(1, true))], "text/html"),
+                (vec![html_filter("append_child", &[], None, &sentinel(1, true))], "text/html"),
+                (vec![html_filter("replace", &["html", "head", "title"], Some("title"), &sentinel(1, true)), html_filter("prepend_child", &["html"], None, &sentinel(2, true))], "text/plain"),
+            ];
+            for (di, doc) in docs.iter().enumerate() {
+                for enc in ["gzip", "deflate", "br", "GZip"] {
+                    for (ri, (filters, content_type)) in rejected.iter().enumerate() {
+                        index += 1;
+                        if index % jobs != shard || (di + ri) % 3 != 0 {
+                            continue;
+                        }
+                        let fc = FilterCase {
+                            filters: filters.clone(),
+                            headers: vec![("Content-Type".to_string(), content_type.to_string()), ("Content-Encoding".to_string(), enc.to_string())],
+                        };
+                        let compressed = super::c14::encode(doc, &enc.to_lowercase(), 6, 22);
+                        let truncated = compressed[..compressed.len() / 2].to_vec();
+                        for body in [&compressed, &truncated, doc] {
+                            let hash = mix(fnv(body), fnv(serde_json::to_string(&fc).unwrap().as_bytes()));
+                            for (cuts, kind) in partitions_for(body.len().min(64), &mut rng, false).into_iter().take(6) {
+                                record(ctx, body, &fc, hash, &cuts, kind, report);
+                                report.count("runs_declared_compressed_without_buildable_filter");
+                            }
+                        }
+                    }
+                }
+            }
+        }
         // (2) fault injection by input: an invalid byte at every offset of every corpus document
         for doc in &docs {
             for (fi, fc) in insert_only.iter().enumerate() {
